@@ -253,31 +253,32 @@ type c03Node struct {
 }
 
 type c03Case struct {
-	p        *Plugin
-	c        *vk.Case
-	rtOn     bool
-	parOn    bool
-	quotas   map[string]*c03Quota
-	order    []string // generated quotas, parents first
-	leaves   []string
-	pods     map[string]*c03Pod
-	special  bool // some pods go to the default / system quota in this case
-	late     []*c03Late
-	lateErr  bool // a late bind error happened in this case (signature attribution only)
-	parkUpd  bool // the "+parked-pod-updates" units: status updates also reach pods still parked in the default quota
-	podUpd   bool // the "+pod-updates" units: status updates of pods and the late bind error (Unreserve after the binding is visible)
-	baseDims []corev1.ResourceName
-	tight    bool // small cluster: runtime quotas well below max
-	podSeq   int
-	nodes    map[string]*c03Node
-	nodeSeq  int
-	hist     []string
-	setup    []string
-	dead     bool
-	relByQ   map[string]bool // per leaf quota: rejection seen, then a release, waiting for an admission
-	rejByQ   map[string]bool
-	ntHit    bool
-	anyMaxLo bool
+	p          *Plugin
+	c          *vk.Case
+	rtOn       bool
+	parOn      bool
+	quotas     map[string]*c03Quota
+	order      []string // generated quotas, parents first
+	leaves     []string
+	pods       map[string]*c03Pod
+	special    bool // some pods go to the default / system quota in this case
+	late       []*c03Late
+	lateErr    bool // a late bind error happened in this case (signature attribution only)
+	parentPods bool // the "+parent-pods" units: pods may name a parent quota (SupportParentQuotaSubmitPod)
+	parkUpd    bool // the "+parked-pod-updates" units: status updates also reach pods still parked in the default quota
+	podUpd     bool // the "+pod-updates" units: status updates of pods and the late bind error (Unreserve after the binding is visible)
+	baseDims   []corev1.ResourceName
+	tight      bool // small cluster: runtime quotas well below max
+	podSeq     int
+	nodes      map[string]*c03Node
+	nodeSeq    int
+	hist       []string
+	setup      []string
+	dead       bool
+	relByQ     map[string]bool // per leaf quota: rejection seen, then a release, waiting for an admission
+	rejByQ     map[string]bool
+	ntHit      bool
+	anyMaxLo   bool
 }
 
 func (h *c03Case) logf(format string, a ...any) { h.hist = append(h.hist, fmt.Sprintf(format, a...)) }
@@ -309,12 +310,12 @@ func (h *c03Case) modelUsed(x *c03Quota, nonPreOnly bool) c03Res {
 			continue
 		}
 		own := h.quotas[pd.Quota]
+		// the usage of a quota, non-preemptible or not, is what its whole subtree holds (for a leaf: its own pods; a
+		// parent quota that takes pods itself is checked against its min with its children's non-preemptible pods counted)
 		in := own == x
-		if !nonPreOnly { // non-preemptible usage is only consulted on the pod's own quota
-			for _, a := range h.chain(own) {
-				if a == x {
-					in = true
-				}
+		for _, a := range h.chain(own) {
+			if a == x {
+				in = true
 			}
 		}
 		if !in {
@@ -441,7 +442,12 @@ func (h *c03Case) genQuota(t *rapid.T, name string, parent *c03Quota, dims []cor
 		if minBudget != nil && minBudget[d] < capv {
 			capv = minBudget[d]
 		}
-		q.Min[d] = c03Amount(t, d, capv, "min-"+string(d))
+		if h.parentPods && parent == nil {
+			// generous guarantees at the top, so that non-preemptible pods get in on both levels (children still draw small)
+			q.Min[d] = c03AmountBig(t, d, capv, "min-"+string(d))
+		} else {
+			q.Min[d] = c03Amount(t, d, capv, "min-"+string(d))
+		}
 		if minBudget != nil {
 			minBudget[d] -= q.Min[d]
 		}
@@ -487,8 +493,8 @@ func (h *c03Case) storeQuota(eq *v1alpha1.ElasticQuota) {
 	_ = h.p.quotaInformer.GetIndexer().Add(eq)
 }
 
-func c03NewCase(t *rapid.T, p *Plugin, c *vk.Case, rtOn, parOn bool) *c03Case {
-	h := &c03Case{p: p, c: c, rtOn: rtOn, parOn: parOn, quotas: map[string]*c03Quota{}, pods: map[string]*c03Pod{}, nodes: map[string]*c03Node{},
+func c03NewCase(t *rapid.T, p *Plugin, c *vk.Case, rtOn, parOn bool, parentPods ...bool) *c03Case {
+	h := &c03Case{p: p, c: c, rtOn: rtOn, parOn: parOn, parentPods: len(parentPods) > 0 && parentPods[0], quotas: map[string]*c03Quota{}, pods: map[string]*c03Pod{}, nodes: map[string]*c03Node{},
 		relByQ: map[string]bool{}, rejByQ: map[string]bool{}}
 	// ---- plugin arguments of this case
 	p.pluginArgs.EnableRuntimeQuota = rtOn
@@ -701,6 +707,19 @@ func (h *c03Case) createPod(t *rapid.T) *c03Pod {
 		labels[extension.LabelQuotaName] = extension.SystemQuotaName
 	default:
 		q := h.quotas[rapid.SampledFrom(h.leaves).Draw(t, "leaf")]
+		if h.parentPods {
+			// feature gate SupportParentQuotaSubmitPod (webhook side only: ValidateAddPod lets a pod name a parent quota)
+			var parents []string
+			for _, name := range h.order {
+				if h.quotas[name].IsParent {
+					parents = append(parents, name)
+				}
+			}
+			if len(parents) > 0 && rapid.IntRange(0, 2).Draw(t, "toParentQuota") == 0 {
+				q = h.quotas[rapid.SampledFrom(parents).Draw(t, "parentQuota")]
+				h.c.Class("pod-submitted-to-parent-quota")
+			}
+		}
 		// a leaf with room of its own below an ancestor that is nearly full: this is how an ancestor's limit
 		// becomes the binding one
 		if hot := h.leavesUnderFullAncestor(); len(hot) > 0 && rapid.IntRange(0, 2).Draw(t, "underFullAncestor") > 0 {
@@ -708,6 +727,9 @@ func (h *c03Case) createPod(t *rapid.T) *c03Pod {
 			h.c.Class("pod-aimed-below-nearly-full-ancestor")
 		}
 		pd.Quota, pd.How = q.Name, "label"
+		if q.IsParent {
+			pd.How = "label-names-parent-quota"
+		}
 		viaNs := rapid.Bool().Draw(t, "viaNamespace")
 		switch {
 		case viaNs && q.Namespace == q.Name:
@@ -1417,6 +1439,23 @@ func (h *c03Case) schedule(t *rapid.T, pd *c03Pod, midCycle func()) {
 	if fmt.Sprint(vb) != fmt.Sprint(va) {
 		h.c.Class("verdict-differs-before/after-PreFilter's-own-refresh(either accepted)")
 	}
+	if own.IsParent && pd.NonPre {
+		sub, self := h.modelUsed(own, true), c03Res{}
+		for _, n := range h.podNames() {
+			if x := h.pods[n]; x.holds() && x.NonPre && x.Quota == own.Name {
+				for _, d := range own.Dims {
+					self[d] += x.Req[d]
+				}
+			}
+		}
+		below, decisive := false, false
+		for _, d := range own.MinDims {
+			below = below || sub[d] > self[d]
+			decisive = decisive || (sub[d]+pd.Req[d] > own.Min[d] && self[d]+pd.Req[d] <= own.Min[d])
+		}
+		h.c.ClassIf(below, "non-preemptible-pod-to-parent-whose-children-hold-non-preemptible-usage")
+		h.c.ClassIf(decisive && vb.own, "…and-only-the-children's-share-puts-it-over-min")
+	}
 	h.c.ClassIf(vb.runtimeBelowMax, "attempt-with-runtime<max")
 	h.c.ClassIf(vb.missingLimitDim, "declared-dimension-missing-from-runtime-list(not limited by plugin; not asserted)")
 	code := status.Code()
@@ -1565,6 +1604,10 @@ func c03PinSteps() {
 func c03Run(t *testing.T, unit string, rtOn, parOn bool) { c03RunX(t, unit, rtOn, parOn, false, false) }
 
 func c03RunX(t *testing.T, unit string, rtOn, parOn, podUpd, parkUpd bool) {
+	c03RunY(t, unit, rtOn, parOn, podUpd, parkUpd, false)
+}
+
+func c03RunY(t *testing.T, unit string, rtOn, parOn, podUpd, parkUpd, parentPods bool) {
 	rec := vk.New(t, "C03", unit)
 	p := c03NewPlugin(t)
 	c03PinSteps()
@@ -1581,8 +1624,8 @@ func c03RunX(t *testing.T, unit string, rtOn, parOn, podUpd, parkUpd bool) {
 		for i := 0; i < salt; i++ { // the driver hands every test the same seed: shift the stream so the units differ
 			rapid.Uint64().Draw(t, "salt")
 		}
-		h := c03NewCase(t, p, c, rtOn, parOn)
-		h.podUpd, h.parkUpd = podUpd, parkUpd
+		h := c03NewCase(t, p, c, rtOn, parOn, parentPods)
+		h.podUpd, h.parkUpd, h.parentPods = podUpd, parkUpd, parentPods
 
 		doSchedule := func(t *rapid.T) {
 			if h.dead {
@@ -1822,4 +1865,14 @@ func TestVerifC03ParkedPodUpdatesRuntimeOnParentOn(t *testing.T) {
 }
 func TestVerifC03ParkedPodUpdatesRuntimeOffParentOff(t *testing.T) {
 	c03RunX(t, "runtime-off/parent-off+parked-pod-updates", false, false, true, true)
+}
+
+// the base machine with pods that name a parent quota directly (alpha feature gate SupportParentQuotaSubmitPod: the pod
+// webhook then admits such pods; the scheduler side has no switch). A parent's usage, non-preemptible usage included,
+// is what its whole subtree holds.
+func TestVerifC03ParentPodsRuntimeOffParentOn(t *testing.T) {
+	c03RunY(t, "runtime-off/parent-on+parent-pods", false, true, false, false, true)
+}
+func TestVerifC03ParentPodsRuntimeOnParentOff(t *testing.T) {
+	c03RunY(t, "runtime-on/parent-off+parent-pods", true, false, false, false, true)
 }
